@@ -188,6 +188,14 @@ def freeze_time(t):
     return True
 
 
+def be_value(b):
+    return int.from_bytes(b, "big")
+
+
+def emit(name, *args):
+    return None
+
+
 def clone_class(cls):
     """a fresh copy of a class definition (native counterpart of the interpreter's clone_class)"""
     return type(cls.__name__, cls.__bases__, dict(cls.__dict__))
